@@ -9,6 +9,7 @@ import (
 	"strings"
 
 	"github.com/goatcms/goatcore/filesystem"
+	"simrt"
 )
 
 // ModelTree is the reference model shared by the filespace properties (C01-C07, C09): a
@@ -253,7 +254,7 @@ func (m *ModelTree) Expectation(prefix []string, op FsOp) Expect {
 			return Expect{Outcome: Either, Why: "recursive remove of the root"}
 		}
 		if n == nil {
-			return Expect{Outcome: Either, Why: "recursive remove of a missing node (error or no-op)"}
+			return Expect{Outcome: Either, Why: "recursive remove of a missing node (error or no-op)", apply: func() {}}
 		}
 		return Expect{Outcome: MustOK, apply: func() { delete(m.parentOf(segs).kids, segs[len(segs)-1]) }}
 	case "Copy", "CopyFile", "CopyDirectory":
@@ -326,7 +327,7 @@ type FsResult struct {
 func RunFsOp(fs filesystem.Filespace, op FsOp) (r FsResult) {
 	defer func() {
 		if p := recover(); p != nil {
-			if _, ok := p.(harnessTrouble); ok {
+			if _, ok := p.(harnessTrouble); ok || simrt.IsAbort(p) {
 				panic(p)
 			}
 			r.Panic = fmt.Sprint(p)
